@@ -1,6 +1,7 @@
 import OciModel.Driver.Funcs
 import OciModel.Driver.Scope
 import OciModel.Driver.Ref
+import OciModel.Driver.Err
 
 structure DState where
   scopes : OciModel.Driver.Scope.Regs := []
@@ -10,6 +11,7 @@ def step (st : DState) (line : String) : DState × String :=
   match (line.trimAscii.toString.splitOn " ") with
   | ["reset"] => ({}, "ok")
   | "funcs" :: rest => (st, OciModel.Driver.Funcs.drive rest)
+  | "err" :: rest => (st, OciModel.Driver.Err.drive rest)
   | "ref" :: rest => (st, OciModel.Driver.Ref.drive rest)
   | "scope" :: rest =>
     let (r, out) := OciModel.Driver.Scope.drive st.scopes rest
